@@ -243,7 +243,7 @@ def _sample(case):
 def plan(tier: str) -> list[dict]:
     if tier == "quick":
         return ([{"mode": "basis", "ns": [2, 3, 4, 5], "cost": 1}, {"mode": "basis", "ns": [6], "cost": 2}]
-                + [{"mode": "boxes", "max_n": 7, "examples": 150, "cost": 3} for _ in range(3)]
+                + [{"mode": "boxes", "max_n": 7, "examples": 400, "cost": 3} for _ in range(4)]
                 + [{"mode": "boxes", "max_n": 9, "min_n": 8, "examples": 20, "cost": 3}])
     return ([{"mode": "basis", "ns": [2, 3, 4, 5, 6], "cost": 2}, {"mode": "basis", "ns": [7], "cost": 4}, {"mode": "basis", "ns": [8], "cost": 10}]
             + [{"mode": "boxes", "max_n": 7, "examples": 1500, "cost": 8} for _ in range(9)]
